@@ -13,6 +13,10 @@ EXTENDS CedarPolicy, Json, IOUtils, TLC
 
 Trace == ndJsonDeserialize("trace.ndjson")
 
+\* every unexplained event is recorded; only the first 100 with details (the state would otherwise grow
+\* quadratically when most of a trace is unexplained)
+Note(b, x) == IF Len(b) < 100 THEN Append(b, x) ELSE Append(b, [event |-> x.event])
+
 VARIABLES l, bad
 vars == <<l, bad>>
 
@@ -24,18 +28,20 @@ AzOf(r) == IF ~r.ok \/ r.v.k # "bool" THEN "error" ELSE IF r.v.b THEN "allow" EL
 
 \* the expressions of event ev whose observation is not what the specification
 \* defines, with the expected observation
+\* (env and the results are bound by set comprehensions, not by LET: TLC re-evaluates a LET
+\* definition at every use, and EnvFromWire / Eval are the expensive parts)
 BadOf(ev) ==
-  LET env == EnvFromWire(ev.env)
-      R(i) == Eval(ExprFromWire(ev.exprs[i]), env)
-      ok(i) == /\ Obs(R(i)) = ObsFromWire(ev.obs[i])
-               /\ (ev.obs[i].az = "n/a" \/ ev.obs[i].az = AzOf(R(i)))
-  IN { [idx |-> i, exp |-> R(i)] : i \in { j \in DOMAIN ev.exprs : ~ok(j) } }
+  UNION { UNION { { [idx |-> i, exp |-> r] : r \in { x \in {Eval(ExprFromWire(ev.exprs[i]), env)} :
+                                                   ~(/\ Obs(x) = ObsFromWire(ev.obs[i])
+                                                     /\ (ev.obs[i].az = "n/a" \/ ev.obs[i].az = AzOf(x))) } }
+                  : i \in DOMAIN ev.exprs }
+          : env \in {EnvFromWire(ev.env)} }
 
 Init == l = 1 /\ bad = <<>>
 
 Next == /\ l <= Len(Trace)
         /\ LET b == BadOf(Trace[l])
-           IN bad' = IF b = {} THEN bad ELSE Append(bad, [event |-> l, items |-> b])
+           IN bad' = IF b = {} THEN bad ELSE Note(bad, [event |-> l, items |-> b])
         /\ l' = l + 1
 
 Done == l = Len(Trace) + 1
